@@ -52,6 +52,7 @@ pub mod vpath {
     impl PathLike for OsString { open spec fn pview(self) -> Seq<char> { self@ } }
     impl PathLike for String { open spec fn pview(self) -> Seq<char> { self@ } }
     impl<'a> PathLike for &'a String { open spec fn pview(self) -> Seq<char> { self@ } }
+    impl<'a, 'b> PathLike for &'a &'b String { open spec fn pview(self) -> Seq<char> { self@ } }
     impl<'a> PathLike for &'a str { open spec fn pview(self) -> Seq<char> { self@ } }
     impl<'a> PathLike for &'a PathBuf { open spec fn pview(self) -> Seq<char> { self@ } }
     #[verifier::external_body]
